@@ -376,6 +376,18 @@ func init() {
 					ldp = r.Uniform(0, 0.3)
 				}
 			}
+			if r.Chance(0.08) {
+				// UNSET parameters (the spec defaults are zero): capacity 0 and / or length-discharge factor 0 make the sedimentation index
+				// 0/0 or x/0; what the clamp min(100, max(0, ·)) does with a NaN / ±Inf decides whether mass is conserved
+				switch r.Intn(3) {
+				case 0:
+					capacity, ldf = 0, 0
+				case 1:
+					ldf = 0
+				default:
+					capacity = 0
+				}
+			}
 			return []float64{drawDt(r), capacity, length, sub, mul, ldf, ldp}
 		},
 		Inputs: func(r *Rng, T int, p []float64) [][]float64 {
